@@ -1,4 +1,5 @@
 import Nstd.Generated.JsonCode
+import Nstd.Json.LemmasParse
 /-
   Property C15, the tie by TRANSLATION (lemmas).  `Nstd.Generated.JsonCode` holds statements of the CURRENT
   src/Document/Json.cpp as tools/gen_json_cxx.py translates them on every run: `Json::stripComments` (three loops),
@@ -192,4 +193,190 @@ theorem gen_string : ∀ (f line : Nat) (acc r : List Byte), JsonCode.strL0 f li
             · simp [hex4, Res.bind, h0]
         · simp only [e1, e2, e3, e4, e5, e6, eu, if_true, if_false]
       · simp only [c0, c13, c10, c92, if_true, if_false]
+
+/-! ### the whole `readToken` -/
+
+theorem bind_rdR {α β : Type} (p : List Byte) (i : Nat) (k : Byte → Res α) (g : α → Res β) :
+    (Cxx.rdR p i k).bind g = Cxx.rdR p i (fun c => (k c).bind g) := by
+  unfold Cxx.rdR; cases p.drop i <;> rfl
+
+theorem bind_ite {α β : Type} (c : Prop) [Decidable c] (a b : Res α) (g : α → Res β) :
+    (if c then a else b).bind g = if c then a.bind g else b.bind g := by
+  split <;> rfl
+
+theorem fail_bind {α β : Type} (l : Nat) (p : List Byte) (g : α → Res β) : (Res.fail l p : Res α).bind g = .fail l p := rfl
+theorem ok_bind {α β : Type} (a : α) (g : α → Res β) : (Res.ok a).bind g = g a := rfl
+
+/-- the string loop inside the whole `readToken` is the separately translated string loop with the token built at the end -/
+theorem tokL1_eq : ∀ (f line : Nat) (acc : List Byte) (tok : Nat) (r : List Byte),
+    JsonCode.tokL1 f line acc tok r = (JsonCode.strL0 f line acc r).bind fun x => .ok ⟨tok, .str x.2.1, x.1, x.2.2⟩ := by
+  intro f
+  induction f with
+  | zero => intros; unfold JsonCode.tokL1 JsonCode.strL0; rfl
+  | succ f ih =>
+    intro line acc tok r
+    unfold JsonCode.tokL1 JsonCode.strL0
+    simp only [bind_rdR, bind_ite, ih, fail_bind, ok_bind]
+
+theorem tokL2_eq : ∀ (f line : Nat) (n : List Byte) (dbl : Bool) (tok : Nat) (r : List Byte),
+    JsonCode.tokL2 f line n dbl tok r = (JsonCode.numL0 f n dbl r).bind fun x => .ok ⟨tok, x.1, line, x.2⟩ := by
+  intro f
+  induction f with
+  | zero => intros; unfold JsonCode.tokL2 JsonCode.numL0; rfl
+  | succ f ih =>
+    intro line n dbl tok r
+    unfold JsonCode.tokL2 JsonCode.numL0
+    simp only [bind_rdR, bind_ite, ih, fail_bind, ok_bind]
+
+/-- "more fuel only turns `.nofuel` into a result" -/
+def FLe {α : Type} (x y : Res α) : Prop := x = .nofuel ∨ x = y
+
+theorem FLe.refl {α : Type} (x : Res α) : FLe x x := Or.inr rfl
+theorem FLe.trans {α : Type} {x y z : Res α} (h1 : FLe x y) (h2 : FLe y z) : FLe x z := by
+  rcases h1 with h | h
+  · exact Or.inl h
+  · rw [h]; exact h2
+theorem FLe_rd {α : Type} (p : List Byte) (i : Nat) (k k' : Byte → Res α) (h : ∀ c, FLe (k c) (k' c)) :
+    FLe (Cxx.rdR p i k) (Cxx.rdR p i k') := by
+  unfold Cxx.rdR; cases p.drop i with
+  | nil => exact FLe.refl _
+  | cons c _ => exact h c
+theorem FLe_ite {α : Type} (c : Prop) [Decidable c] (a a' b b' : Res α) (h1 : FLe a a') (h2 : FLe b b') :
+    FLe (if c then a else b) (if c then a' else b') := by
+  split <;> assumption
+
+theorem strL0_le : ∀ (f line : Nat) (acc r : List Byte),
+    FLe (JsonCode.strL0 f line acc r) (JsonCode.strL0 (f + 1) line acc r) := by
+  intro f
+  induction f with
+  | zero =>
+    intro line acc r
+    have e : JsonCode.strL0 0 line acc r = .nofuel := by simp only [JsonCode.strL0]
+    exact Or.inl e
+  | succ f ih =>
+    intro line acc r
+    rw [JsonCode.strL0, JsonCode.strL0]
+    repeat (first | (apply FLe_rd; intro _) | apply FLe_ite | exact ih _ _ _ | exact Or.inr rfl)
+
+theorem strL0_mono (f g line : Nat) (acc r : List Byte) (h : f ≤ g) :
+    FLe (JsonCode.strL0 f line acc r) (JsonCode.strL0 g line acc r) := by
+  induction g with
+  | zero => have : f = 0 := by omega
+            subst this; exact FLe.refl _
+  | succ g ih =>
+    by_cases e : f = g + 1
+    · subst e; exact FLe.refl _
+    · exact FLe.trans (ih (by omega)) (strL0_le g line acc r)
+
+/-- fuel monotonicity of the model's string loop (through the translated one) -/
+theorem readStr_fuel (f g line : Nat) (acc r : List Byte) (h : f ≤ g) (hn : readStr f line acc r ≠ .nofuel) :
+    readStr g line acc r = readStr f line acc r := by
+  have := strL0_mono f g line acc r h
+  rw [gen_string, gen_string] at this
+  rcases this with e | e
+  · exact absurd e hn
+  · exact e.symm
+
+theorem litMatch_drop : ∀ (lit r q : List Byte), litMatch lit r = .ok (some q) → q = r.drop lit.length := by
+  intro lit
+  induction lit with
+  | nil => intro r q h; simp [litMatch] at h; simp [h]
+  | cons l ls ih =>
+    intro r q h
+    cases r with
+    | nil => simp [litMatch] at h
+    | cons c r =>
+      simp only [litMatch] at h
+      by_cases e : c = l
+      · simp only [e, if_true] at h
+        simpa using ih r q h
+      · simp [e] at h
+
+theorem litR_eq {α : Type} (lit r : List Byte) (f : List Byte → α) (l : Nat) :
+    Cxx.litR lit r (Res.ok (f (r.drop lit.length))) (Res.fail l r) =
+      (litMatch lit r).bind fun m => match m with
+        | some r'' => Res.ok (f r'')
+        | none => Res.fail l r := by
+  unfold Cxx.litR
+  cases h : litMatch lit r with
+  | ok m =>
+    cases m with
+    | none => rfl
+    | some q => simp only [Res.bind]; rw [litMatch_drop lit r q h]
+  | _ => rfl
+
+/-- THE WHOLE `readToken`, translated, is the model's `readToken` on every consistent position (cursor inside a
+    NUL-terminated buffer) with any sufficient budget -/
+theorem gen_readToken (buf : List Byte) : ∀ (f line : Nat) (r : List Byte), r.length + 2 ≤ f → Pos buf line r →
+    JsonCode.tokL0 f line r = readToken line r := by
+  intro f
+  induction f with
+  | zero => intro line r h; omega
+  | succ f ih =>
+    intro line r hf hp
+    rcases r with _ | ⟨c, r⟩
+    · exact absurd rfl hp.ne_nil
+    · unfold JsonCode.tokL0 readToken
+      rw [skipSpace_cons]
+      by_cases c13 : c = 13
+      · subst c13
+        rcases r with _ | ⟨d, r⟩
+        · simp [Cxx.rdR, Res.bind]
+        · by_cases d10 : d = 10
+          · subst d10
+            have := ih (line + 1) r (by simp at hf ⊢; omega) hp.crlf
+            simp [Cxx.rdR, this, readToken]
+          · have := ih (line + 1) (d :: r) (by simp at hf ⊢; omega) (hp.cr d10)
+            simp [Cxx.rdR, this, readToken, d10]
+      · by_cases c10 : c = 10
+        · subst c10
+          have := ih (line + 1) r (by simp at hf ⊢; omega) hp.lf
+          simp [Cxx.rdR, this, readToken]
+        · by_cases csp : isSpace c = true
+          · have := ih line r (by simp at hf ⊢; omega) (hp.step (isSpace_ne_zero csp) c10 c13)
+            simp [Cxx.rdR, this, readToken, c13, c10, csp]
+          · simp only [Cxx.rdR, List.drop, c13, c10, csp, if_false, Res.bind, Bool.false_eq_true]
+            have hnum : JsonCode.tokL2 f line [] false 35 (c :: r) =
+                match numLoop [] false (c :: r) with
+                | Res.ok a => Res.ok { tok := 35, val := numVal a.fst a.2.fst, line := line, r := a.2.snd }
+                | Res.fail l p => Res.fail l p
+                | Res.oob => Res.oob
+                | Res.nofuel => Res.nofuel := by
+              rw [tokL2_eq, gen_number f [] false (c :: r) (by simp at hf ⊢; omega)]
+              cases numLoop [] false (c :: r) <;> rfl
+            by_cases c0 : c = 0
+            · subst c0; simp
+            by_cases cs : c = 123 ∨ c = 125 ∨ c = 91 ∨ c = 93 ∨ c = 44 ∨ c = 58
+            · simp [c0, cs]
+            by_cases c34 : c = 34
+            · subst c34
+              have hp' : Pos buf line r := hp.step (by decide) (by decide) (by decide)
+              have hpost := readStr_post buf r.length line [] r (Nat.le_refl _) hp'
+              have hn : readStr r.length line [] r ≠ .nofuel := by
+                intro e; rw [e] at hpost; exact hpost
+              have hfuel := readStr_fuel r.length f line [] r (by simp at hf; omega) hn
+              simp only [c0, cs, if_true, if_false]
+              rw [tokL1_eq, gen_string, hfuel]
+              cases readStr r.length line [] r <;> rfl
+            by_cases c116 : c = 116
+            · subst c116
+              simp only [c0, cs, c34, if_true, if_false]
+              exact litR_eq [116, 114, 117, 101] (116 :: r) (fun q => (⟨116, .bool true, line, q⟩ : St)) line
+            by_cases c102 : c = 102
+            · subst c102
+              simp only [c0, cs, c34, c116, if_true, if_false]
+              exact litR_eq [102, 97, 108, 115, 101] (102 :: r) (fun q => (⟨102, .bool false, line, q⟩ : St)) line
+            by_cases c110 : c = 110
+            · subst c110
+              simp only [c0, cs, c34, c116, c102, if_true, if_false]
+              exact litR_eq [110, 117, 108, 108] (110 :: r) (fun q => (⟨110, .null, line, q⟩ : St)) line
+            simp only [c0, cs, c34, c116, c102, c110, if_false, hnum]
+            by_cases c45 : c = 45
+            · simp only [c45, true_or, if_true]
+              cases numLoop [] false (45 :: r) <;> rfl
+            · by_cases cd : isDigit c = true
+              · simp only [c45, cd, or_true, if_true, if_false]
+                cases numLoop [] false (c :: r) <;> rfl
+              · simp [c45, cd]
+
 end Nstd.Json
